@@ -387,7 +387,13 @@ def rule_c(ctx, out):
                 others = [d for d in own_nodes(f.node) if isinstance(d, ast.AugAssign) and isinstance(d.target, ast.Name) and d.target.id == a.id] + \
                          [m for m in calls_in(f.node) if isinstance(m.func, ast.Attribute) and isinstance(m.func.value, ast.Name) and m.func.value.id == a.id
                           and m.func.attr in ("append", "extend", "insert")]
-                ok = bool(defs) and not others and all(isinstance(d.value, ast.Call) and call_name(d.value) in sources for d in defs) and a.id not in f.params
+                def positional(v):
+                    if isinstance(v, ast.Call) and call_name(v) in sources:
+                        return True
+                    # a copy / re-ordering of the same relation
+                    return isinstance(v, ast.Call) and call_name(v) in ("list", "sorted", "tuple") and len(v.args) == 1 and isinstance(v.args[0], ast.Name) and v.args[0].id == a.id
+                ok = bool(defs) and not others and all(positional(d.value) for d in defs) and any(isinstance(d.value, ast.Call) and call_name(d.value) in sources for d in defs) \
+                    and a.id not in f.params
             if ok:
                 out.ok({"function": f.qual, "call": short(c, 60), "relation": "over positions"})
             else:
